@@ -1,4 +1,6 @@
 import Cgm.Lemmas.AuditCmd
 import Cgm.E2E.C05
 import Cgm.E2E.C05b
+import Cgm.E2E.C05c
+import Cgm.E2E.C05g
 #audit_namespace Cg.E2E.C05
